@@ -35,6 +35,7 @@ type importerSpec struct {
 	Fee     bool
 	Multi   bool // several currencies in one statement
 	Latin1  bool
+	Bals    bool // the statement carries running balances that become assertions
 	Write   func(rows []stRow) []byte
 }
 
@@ -140,7 +141,45 @@ var importers = []importerSpec{
 			}
 			return csvBytes(',', recs)
 		}},
-	{Name: "revolut2", Args: []string{"--account", "Assets:Revolut", "--fee", "Expenses:Fees"}, Account: "Assets:Revolut", Fee: true, Multi: true,
+	{Name: "ch.cumulus", Args: []string{"--account", "Liabilities:Cumulus"}, Account: "Liabilities:Cumulus",
+		Write: func(rows []stRow) []byte {
+			recs := [][]string{{"Einkaufs-Datum", "Verbucht am", "Beschreibung", "Gutschrift CHF", "Belastung CHF"}}
+			for _, r := range rows {
+				gut, bel := "", ""
+				v := r.Amt
+				if v < 0 {
+					v = -v
+				}
+				a := amt2(v)
+				if v >= 100000 { // thousands separator as in the real statements
+					ip := fmt.Sprint(v / 100)
+					a = ip[:len(ip)-3] + "'" + ip[len(ip)-3:] + fmt.Sprintf(".%02d", v%100)
+				}
+				if r.Amt < 0 {
+					bel = a
+				} else {
+					gut = a
+				}
+				recs = append(recs, []string{dmy(r.Z), dmy(r.Z + 2), r.Text, gut, bel})
+			}
+			return csvBytes(',', recs)
+		}},
+	{Name: "revolut", Args: []string{"--account", "Assets:Revolut"}, Account: "Assets:Revolut", Bals: true,
+		Write: func(rows []stRow) []byte {
+			recs := [][]string{{"Completed Date", "Reference", "Paid Out (CHF)", "Paid In (CHF)", "Exchange Out", "Exchange In", " Balance (CHF)", "Exchange Rate", "Category"}}
+			for k := len(rows) - 1; k >= 0; k-- { // newest first
+				r := rows[k]
+				out, in := "", ""
+				if r.Amt < 0 {
+					out = amt2(-r.Amt)
+				} else {
+					in = amt2(r.Amt)
+				}
+				recs = append(recs, []string{dayToTime(r.Z).Format("2 Jan 2006"), r.Text, out, in, "", "", amt2(r.Bal), " ", "General"})
+			}
+			return csvBytes(';', recs)
+		}},
+	{Name: "revolut2", Args: []string{"--account", "Assets:Revolut", "--fee", "Expenses:Fees"}, Account: "Assets:Revolut", Fee: true, Multi: true, Bals: true,
 		Write: func(rows []stRow) []byte {
 			recs := [][]string{{"Type", "Product", "Started Date", "Completed Date", "Description", "Amount", "Fee", "Currency", "State", "Balance"}}
 			for _, r := range rows {
@@ -172,7 +211,7 @@ func observeImport(bin, root string, id int, im importerSpec, rows []stRow) map[
 	lastBal := map[string]map[string]any{}
 	for _, x := range rows {
 		rws = append(rws, map[string]any{"z": x.Z, "amt": x.Amt, "fee": x.Fee, "cur": x.Cur})
-		if im.Fee { // revolut2 carries a balance per row; the last one per (date, currency) becomes an assertion
+		if im.Bals { // the statement carries a balance per row; the last one per (date, currency) becomes an assertion
 			lastBal[fmt.Sprintf("%d/%s", x.Z, x.Cur)] = map[string]any{"z": x.Z, "cur": x.Cur, "bal": x.Bal}
 		}
 	}
@@ -247,7 +286,7 @@ func observeImport(bin, root string, id int, im importerSpec, rows []stRow) map[
 		open := fmt.Sprintf("2000-01-01 open %s\n2000-01-01 open Expenses:TBD\n2000-01-01 open Expenses:Fees\n\n", im.Account)
 		// revolut2's assertions need the opening balance: book it so that the first asserted balance holds
 		pre := ""
-		if im.Fee {
+		if im.Bals {
 			first := map[string]bool{}
 			for _, x := range rows {
 				if !first[x.Cur] {
@@ -277,7 +316,7 @@ func observeImport(bin, root string, id int, im importerSpec, rows []stRow) map[
 
 func C13(c *core.Ctx) {
 	c.Ev.Level = "exploration"
-	c.Set("rule", "abstract statements (1-8 booking rows: dates, signs, amounts with two decimals up to 10^6, 1-3 currencies where the format allows, fees and running balances where the format carries them, free text of 8 classes incl. double quotes, separators, Unicode, leading blanks, tabs) rendered by one format writer per covered importer (ch.postfinance, ch.supercard, ch.swisscard, ch.swisscard2, revolut2); uncovered importers: ch.cumulus, revolut, com.wise, ch.viac, ch.swissquote, us.interactivebrokers (only their repository statements are exercised, by C06); distinct by statement bytes; non-trivial = >= 2 rows and >= 1 negative amount or special-character text")
+	c.Set("rule", "abstract statements (1-8 booking rows: dates, signs, amounts with two decimals up to 10^6, 1-3 currencies where the format allows, fees and running balances where the format carries them, free text of 8 classes incl. double quotes, separators, Unicode, leading blanks, tabs) rendered by one format writer per covered importer (ch.postfinance, ch.supercard, ch.swisscard, ch.swisscard2, ch.cumulus, revolut, revolut2); uncovered importers: com.wise, ch.viac, ch.swissquote, us.interactivebrokers (only their repository statements are exercised, by C06); distinct by statement bytes; non-trivial = >= 2 rows and >= 1 negative amount or special-character text")
 	c.Trusted("TLC + Json module", "the four statement writers (the only format-specific harness code)", "knut's parser/checker/printer as readers of the importer output (cross-checked against the abstract rows)")
 	c.MC("MC_Lifecycle", c.TierCfg("MC_Lifecycle"), 16, 40*time.Minute)
 	bin := c.Knut("")
@@ -340,8 +379,8 @@ func C13(c *core.Ctx) {
 	}
 	c.Add("evaluations", len(cases))
 	c.Add("distinct_nontrivial", nt)
-	c.Set("importers_covered", []string{"ch.postfinance", "ch.supercard", "ch.swisscard", "ch.swisscard2", "revolut2"})
-	c.Set("importers_uncovered", []string{"ch.cumulus", "revolut", "com.wise", "ch.viac", "ch.swissquote", "us.interactivebrokers"})
+	c.Set("importers_covered", []string{"ch.cumulus", "ch.postfinance", "ch.supercard", "ch.swisscard", "ch.swisscard2", "revolut", "revolut2"})
+	c.Set("importers_uncovered", []string{ "com.wise", "ch.viac", "ch.swissquote", "us.interactivebrokers"})
 	c.Sample(map[string]any{"importer": cases[0]["importer"], "statement": cases[0]["statement"], "output": cases[0]["stdout"]})
 	c.JudgeAndReport("Trace_Importer", "Trace_Importer.cfg", cases, 16,
 		func(old map[string]any) map[string]any {
